@@ -314,6 +314,9 @@ fn handle_eval_up_to_request(
         }
     };
 
+    // Checking the items looks up the namespace of this path.
+    env.get_or_create_namespace(&path);
+
     let vfs_path = env.vfs.insert(Rc::new(path.clone()), src.to_owned());
     let (items, mut errors) = parse_toplevel_items(&vfs_path, src, &mut env.id_gen);
 
